@@ -10,6 +10,7 @@ Lemma bind_ok {A B} (r : result A) (f : A -> result B) y :
 Proof. destruct r; cbn; try discriminate. eauto. Qed.
 
 Ltac inv_bind H :=
+  cbv beta in H;
   lazymatch type of H with
   | bind ?r ?f = Ok ?y =>
       let x := fresh "x" in let E := fresh "E" in
